@@ -90,6 +90,8 @@ def structures(tier, seed):
                             axis=["X", "Y"], to={"X": "left", "Y": "outer"}, cboundary=rule, cfill=fill, sizes=[nx, ny], gperiodic=False))
     # canary
     out.append(base(axes={"X": ("center", "left")}, arr={"X": "center"}, to="left", cboundary="fill", cfill="S", canary="m-off-by-one"))
+    if tier == "thorough":
+        out.append({"sid": "lean;finite-sum-facts", "part": "lean"})
     return out
 
 
@@ -151,6 +153,9 @@ def _scen(s, w):
 
 
 def run_structure(s):
+    if s["part"] == "lean":
+        from harness import C07
+        return C07.run_lean(s)
     mods = util.xgcm_modules()
     covers = {}
     canary = s.get("canary")
